@@ -111,6 +111,9 @@ def run(ctx):
             elif under(lf.pc_raw, r, 0):
                 n = 0
                 hi = 0
+        if lo > hi:
+            # a path for arguments with bit 31 set only (rejected instead of masked, say): not a code point, outside the property
+            continue
         if n is None:
             rep.unk('U3', 'a_utf_encode', 'length on path %s is not a constant: %r' % (lf.pc, r), loc=loc)
             continue
